@@ -43,8 +43,9 @@ type refClient struct {
 	// pending: the client cannot know which pending answers rely on them, so it keeps them until
 	// it has no request outstanding (see DESIGN.md section 10)
 	transient map[string]bool
-	legacy    bool // protocol < 1.2.1: soft references and data values arrive encoded
-	callRes   bool // protocol >= 1.2.0: call/auth resource responses subscribe
+	lastGet   map[string]bool // resources delivered by the get response that was the previous frame
+	legacy    bool            // protocol < 1.2.1: soft references and data values arrive encoded
+	callRes   bool            // protocol >= 1.2.0: call/auth resource responses subscribe
 }
 
 func newRefClient(c *wsClient) *refClient {
@@ -53,7 +54,10 @@ func newRefClient(c *wsClient) *refClient {
 }
 
 // reachable returns the set of resource ids reachable from direct subscriptions via non-soft refs.
-func (rc *refClient) reachable() map[string]bool {
+func (rc *refClient) reachable() map[string]bool { return rc.reach(true) }
+
+// reach computes the retained set; withTransient also counts what a recent get handed over.
+func (rc *refClient) reach(withTransient bool) map[string]bool {
 	seen := map[string]bool{}
 	var visit func(rid string)
 	visit = func(rid string) {
@@ -83,8 +87,10 @@ func (rc *refClient) reachable() map[string]bool {
 			visit(rid)
 		}
 	}
-	for rid := range rc.transient {
-		visit(rid)
+	if withTransient {
+		for rid := range rc.transient {
+			visit(rid)
+		}
 	}
 	return seen
 }
@@ -103,7 +109,15 @@ func (rc *refClient) addResources(rs *rpcResources) {
 	if rs == nil {
 		return
 	}
+	// A client keeps what it already holds: a resource delivered again while the client still
+	// retains it is ignored (the resource set is specified to contain only resources "previously
+	// not subscribed by the client"; RES clients skip cached ones).
+	keep := rc.reach(false)
+	skip := func(rid string) bool { return keep[rid] && rc.held[rid] != nil && rc.held[rid].kind != 'e' }
 	for rid, m := range rs.Models {
+		if skip(rid) {
+			continue
+		}
 		r := &refRes{kind: 'm', model: map[string]string{}}
 		for k, v := range m {
 			r.model[k] = absValue(v)
@@ -112,6 +126,9 @@ func (rc *refClient) addResources(rs *rpcResources) {
 		delete(rc.lastSeq, rid)
 	}
 	for rid, c := range rs.Collections {
+		if skip(rid) {
+			continue
+		}
 		r := &refRes{kind: 'c'}
 		for _, v := range c {
 			r.coll = append(r.coll, absValue(v))
@@ -120,6 +137,9 @@ func (rc *refClient) addResources(rs *rpcResources) {
 		delete(rc.lastSeq, rid)
 	}
 	for rid, e := range rs.Errors {
+		if skip(rid) {
+			continue
+		}
 		rc.held[rid] = &refRes{kind: 'e', errCode: e.Code}
 	}
 }
@@ -219,6 +239,18 @@ func (m *monitors) onFrame(c *wsClient, f *cframe) {
 		}
 		delete(rc.pending, f.id)
 		rc.answered[f.id]++
+		rc.lastGet = nil
+		if p.kind == "get" && !f.hasErr {
+			var grs rpcResources
+			json.Unmarshal(f.result, &grs)
+			rc.lastGet = map[string]bool{}
+			for k := range grs.Models {
+				rc.lastGet[k] = true
+			}
+			for k := range grs.Collections {
+				rc.lastGet[k] = true
+			}
+		}
 		if len(rc.pending) == 0 && len(rc.transient) > 0 {
 			defer func() { rc.transient = map[string]bool{}; rc.gc() }()
 		}
@@ -303,6 +335,12 @@ func (m *monitors) onFrame(c *wsClient, f *cframe) {
 		}
 		rc.direct[f.rid] = 0
 		rc.gc()
+		return
+	}
+	if (r == nil || !rc.reachable()[f.rid]) && rc.lastGet[f.rid] {
+		// events queued while a get was loading are flushed to the client right after the get
+		// response although a get leaves no subscription
+		w.addViolation("C02", "event-after-get", fmt.Sprintf("%s event for %s on %s right after a get response; the client holds no subscription to it", f.event, f.rid, c.name))
 		return
 	}
 	if r == nil || !rc.reachable()[f.rid] {
@@ -475,7 +513,17 @@ func (m *monitors) onRequest(l mqLog) {
 	switch kind {
 	case "get":
 		if !m.mqSubs["event."+l.subject[4:]] {
-			w.addViolation("C09", "get-without-subscription", "get request for "+l.subject[4:]+" without an active event subscription")
+			cached := false
+			for _, e := range w.serv.VerifCache().VerifSnapshot() {
+				if e.Name == l.subject[4:] {
+					cached = true
+				}
+			}
+			if cached {
+				w.addViolation("C09", "get-without-subscription", "get request for "+w.absSubject(l.subject[4:])+" without an active event subscription")
+			} else {
+				w.addViolation("C09", "get-for-evicted-entry", "get request for "+w.absSubject(l.subject[4:])+" after its cache entry was evicted (no event subscription)")
+			}
 		}
 	case "access", "call", "auth":
 		if p.CID == nil {
@@ -635,7 +683,11 @@ func (w *world) finalChecks() {
 			if d == nil || d.getErr != "" {
 				continue
 			}
-			tr := w.truth.get(name, w.truth.normQuery(q))
+			nq := w.truth.normQuery(q)
+			if !d.query {
+				nq = ""
+			}
+			tr := w.truth.get(name, nq)
 			if tr == nil || tr.deleted {
 				continue
 			}
